@@ -135,8 +135,8 @@ type engine struct {
 	lastDeleted  map[ch.NodeID]int    // rows of the channel that vanished from a node's store in the last step (retention trims)
 	acked        map[uint64]bool      // message ids acknowledged to a client
 	tainted      bool                 // run ended by a C01 loss seen at the service level
-	deferred     *pendingViolation    // client-path read violation with a known root cause
-	deferredMgmt *pendingViolation    // management-path read violation
+	deferred     []*pendingViolation  // client-path read violations with a known root cause, distinct (class, sig)
+	deferredMgmt []*pendingViolation  // management-path read violations, distinct (class, sig)
 
 	// open catalog cycle of the retention GC driver, per node
 	gcCycles map[ch.NodeID]*gcCycle
@@ -275,13 +275,8 @@ func (e *engine) run() {
 	if e.tainted {
 		return // nothing is reported about a run in which quorum recovery lost an acknowledged message
 	}
-	if !r.Failed() && e.deferred != nil {
-		d := e.deferred
-		r.FailSig(d.class, d.sig, d.detail, d.facts)
-	}
-	if !r.Failed() && e.deferredMgmt != nil {
-		d := e.deferredMgmt
-		r.FailSig(d.class, d.sig, d.detail, d.facts)
+	if !r.Failed() {
+		e.raiseDeferred()
 	}
 	total := 0
 	for _, v := range r.Faults {
@@ -601,9 +596,16 @@ func (e *engine) checkStep(prev, cur map[ch.NodeID]*snap, idx int) {
 				if c.rv.MinISRMatchOffset >= top {
 					known = "leader-believed-covered"
 				}
-				r.FailSig("trim-above-isr-progress", known, fmt.Sprintf("leader %d physically deleted seq %d while ISR member %d holds the log only through %d (leader's MinISRMatchOffset=%d, HW=%d, ISR=%v)",
-					id, top, who, minMatch, c.rv.MinISRMatchOffset, hw, isr), map[string]any{"deleted": top, "member": who, "member_leo": minMatch})
-				return
+				if r.FailSigContinue("trim-above-isr-progress", known, fmt.Sprintf("leader %d physically deleted seq %d while ISR member %d holds the log only through %d (leader's MinISRMatchOffset=%d, HW=%d, ISR=%v)",
+					id, top, who, minMatch, c.rv.MinISRMatchOffset, hw, isr), map[string]any{"deleted": top, "member": who, "member_leo": minMatch}) {
+					return
+				}
+				// open known finding (C10-K5): the run goes on. The reference of every later
+				// check is the observed store of each node (prev/cur of a step, the serving
+				// node's rows and watermarks for reads); the trimmed rows are simply gone from
+				// it, and no oracle presumes that ISR members hold the leader's prefix.
+				r.Probe("known.continued.trim-above-isr-progress")
+				continue
 			}
 			r.Probe("trim.on_leader")
 		} else {
